@@ -240,6 +240,33 @@ Proof.
     rewrite E4. cbn. destruct wc; [specialize (Hw eq_refl); discriminate|reflexivity].
 Qed.
 
+Lemma drain_good limit c : good limit c -> good limit (drain limit c).
+Proof.
+  intro H. unfold drain.
+  set (c1 := iteration limit c (EPing MARKER)).
+  assert (H1 : good limit c1) by (apply iteration_good, H).
+  set (c0 := mkC (zero c1) (sq c1) (queued c1) (writing c1) (needs_flush c1) (need_ack c1) (closed c1) []).
+  assert (H0 : good limit c0) by exact H1.
+  generalize (repeat tt (length (zero c0) + Z.to_nat (sq_total (sq c0)) + 4)) as l.
+  intro l. revert H0. generalize c0. induction l as [|x l IH]; intros c2 H2; simpl; [exact H2|].
+  apply IH, iteration_good, H2.
+Qed.
+Lemma drain_closed limit c : closed c = true -> closed (drain limit c) = true.
+Proof.
+  intro H. unfold drain.
+  set (c1 := iteration limit c (EPing MARKER)).
+  assert (H1 : closed c1 = true) by (apply iteration_closed_mono, H).
+  set (c0 := mkC (zero c1) (sq c1) (queued c1) (writing c1) (needs_flush c1) (need_ack c1) (closed c1) []).
+  assert (H0 : closed c0 = true) by exact H1.
+  generalize (repeat tt (length (zero c0) + Z.to_nat (sq_total (sq c0)) + 4)) as l.
+  intro l. revert H0. generalize c0. induction l as [|x l IH]; intros c2 H2; simpl; [exact H2|].
+  apply IH, iteration_closed_mono, H2.
+Qed.
+Lemma drain_state_good limit c : good limit c -> good limit (drain_state limit c).
+Proof. intro H. unfold drain_state. destruct (closed c || (limit <=? queued c)); [exact H|apply drain_good, H]. Qed.
+Lemma drain_state_closed limit c : closed c = true -> closed (drain_state limit c) = true.
+Proof. intro H. unfold drain_state. rewrite H. exact H. Qed.
+
 Lemma run_ops_ok limit ops : forall st wc out,
   good limit (fst st) -> (wc = true -> closed (fst st) = true) ->
   run_ops limit ops st = Some out -> samples_ok limit wc out = true.
@@ -261,8 +288,14 @@ Proof.
       - eapply IH; [| |exact E]; simpl; [exact Hg'|intro H; exact H].
       - intro H. apply iteration_closed_mono, apply_cop_closed, Hw, H. }
     destruct o; simpl in Hr; try (apply Hgen; exact Hr).
-    destruct r; [|discriminate]. inversion Hr. unfold drain_out.
-    destruct (closed (fst st) || (limit <=? queued (fst st))); reflexivity.
+    destruct r; [|discriminate]. inversion Hr.
+    assert (Hd : samples_ok limit wc [sample (barrier limit (drain_state limit (fst st)))] = true).
+    { rewrite sample_step.
+      - reflexivity.
+      - apply iteration_good, drain_state_good, Hg.
+      - intro H. apply iteration_closed_mono, drain_state_closed, Hw, H. }
+    unfold drain_out.
+    destruct (closed (fst st) || (limit <=? queued (fst st))); cbn [samples_ok Z.eqb Pos.eqb andb]; exact Hd.
 Qed.
 
 Lemma conn_blocked_good limit : 0 <= limit -> good limit conn_blocked.
@@ -287,13 +320,46 @@ Proof.
   eapply run_ops_ok; [| |exact Er]; simpl; [apply conn_blocked_good, Hl|discriminate].
 Qed.
 
+Lemma run_ops_some limit cops : forall st, drain_last cops = true -> run_ops limit cops st <> None.
+Proof.
+  induction cops as [|o r IH]; intros st Hd; [simpl; discriminate|].
+  assert (G : forall o', drain_last r = true ->
+    match run_ops limit r (barrier limit (fst (apply_cop limit o' st)), snd (apply_cop limit o' st)) with
+    | Some out => Some (sample (barrier limit (fst (apply_cop limit o' st))) :: out)
+    | None => None
+    end <> None).
+  { intros o' Hd'. specialize (IH (barrier limit (fst (apply_cop limit o' st)), snd (apply_cop limit o' st)) Hd').
+    destruct (run_ops limit r _); [discriminate|exact IH]. }
+  destruct o; cbn [run_ops]; cbn [drain_last] in Hd; try (apply G; exact Hd).
+  destruct r; [discriminate|discriminate].
+Qed.
+
+(* THE central statement: on every well-formed input the model's observation satisfies the executable property *)
+Lemma prop_C37_central i : wf_C37 i = true -> kf_C37 i = 0 -> prop_C37 i (run_C37 i) = true.
+Proof.
+  intros Hwf _. unfold wf_C37 in Hwf.
+  destruct i as [z|b|l]; try discriminate.
+  destruct l as [|[limit| |] [|[stall| |] [|[| |ops] [|]]]]; try discriminate.
+  apply andb_true_iff in Hwf. destruct Hwf as [Hwf Hd]. apply andb_true_iff in Hwf. destruct Hwf as [Hl Hs].
+  apply Z.leb_le in Hl. apply Z.leb_le in Hs.
+  apply prop_C37_of_model; [exact Hl|exact Hs|].
+  unfold run_C37.
+  assert (E1 : (0 <=? limit) = true) by (apply Z.leb_le; exact Hl).
+  assert (E2 : (0 <=? stall) = true) by (apply Z.leb_le; exact Hs).
+  rewrite E1, E2. cbn [andb].
+  destruct (all_some (map dec_cop ops)) as [cops|]; [|discriminate].
+  pose proof (run_ops_some limit cops (conn_blocked, 1) Hd) as Hn.
+  destruct (run_ops limit cops (conn_blocked, 1)); [discriminate|contradiction].
+Qed.
+
 (* non-vacuity witnesses *)
 Lemma ex_flood_input :
   let i := VL [VZ 5; VZ 0; VL [VL [VZ 1; VZ 5]; VL [VZ 5; VZ 1]; VL [VZ 4; VZ 1; VZ 77]; VL [VZ 7]]] in
-  run_C37 i = VL [vLZ [0;0;0;0]; vLZ [5;5;0;0]; vLZ [5;5;1;0]; vLZ [7;7;-1;1]; VL [VZ 7; VL []]]
+  run_C37 i = VL [vLZ [0;0;0;0]; vLZ [5;5;0;0]; vLZ [5;5;1;0]; vLZ [7;7;-1;1]; VL [VZ 7; VL []]; vLZ [7;7;-1;1]]
+  /\ wf_C37 i = true
   /\ prop_C37 i (run_C37 i) = true.
-Proof. vm_compute. split; reflexivity. Qed.
+Proof. vm_compute. repeat split; reflexivity. Qed.
 Lemma ex_drain_input :
   let i := VL [VZ 10; VZ 2; VL [VL [VZ 1; VZ 3]; VL [VZ 4; VZ 1; VZ 77]; VL [VZ 7]]] in
-  run_C37 i = VL [vLZ [0;0;0;0]; vLZ [3;3;0;0]; vLZ [5;5;0;0]; VL [VZ 7; vLZ [1;2;3;0;-77;MARKER]]].
+  run_C37 i = VL [vLZ [0;0;0;0]; vLZ [3;3;0;0]; vLZ [5;5;0;0]; VL [VZ 7; vLZ [1;2;3;0;-77;MARKER]]; vLZ [0;0;0;0]].
 Proof. vm_compute. reflexivity. Qed.
